@@ -365,6 +365,43 @@ class Inliner:
         return ast.copy_location(new, call)
 
     # -- statement level -------------------------------------------------------------------------------------------
+    def hoist(self, fi, st: ast.stmt) -> Optional[list]:
+        """calls of statement-form helpers that sit inside a larger expression of a simple statement (an element of the
+        returned tuple, an argument) are first bound to fresh locals, in evaluation order"""
+        if not isinstance(st, (ast.Assign, ast.AnnAssign, ast.AugAssign, ast.Return, ast.Expr)) or getattr(st, "value", None) is None:
+            return None
+        found = []
+
+        def rec(e, top):
+            if isinstance(e, (ast.Lambda, ast.ListComp, ast.SetComp, ast.DictComp, ast.GeneratorExp, ast.IfExp, ast.BoolOp)):
+                return          # evaluated conditionally or repeatedly: left alone
+            for ch in ast.iter_child_nodes(e):
+                rec(ch, False)
+            if isinstance(e, ast.Call) and not top:
+                h = self._callee(fi, e)
+                if h is not None and _expr_form(h) is None and _stmt_form(h) is not None and _bind(h, e, self._receiver(e)) is not None:
+                    found.append(e)
+        rec(st.value, True)
+        if not found:
+            return None
+        pre = []
+        for e in found:
+            self.counter += 1
+            tmp = f"_piece__h{self.counter}"
+            pre.append(ast.Assign(targets=[ast.Name(id=tmp, ctx=ast.Store())], value=copy.deepcopy(e), lineno=st.lineno))
+
+            class R(ast.NodeTransformer):
+                def visit_Call(self_, node):
+                    if node is e:
+                        return ast.copy_location(ast.Name(id=tmp, ctx=ast.Load()), node)
+                    self_.generic_visit(node)
+                    return node
+            st.value = R().visit(st.value)
+        for s_ in pre:
+            ast.copy_location(s_, st)
+            ast.fix_missing_locations(s_)
+        return pre + [st]
+
     def stmt_inline(self, fi, st: ast.stmt) -> Optional[list]:
         call = None
         if isinstance(st, (ast.Assign, ast.AnnAssign, ast.AugAssign, ast.Return, ast.Expr)) and isinstance(getattr(st, "value", None), ast.Call):
@@ -396,6 +433,12 @@ class Inliner:
                 tmp = p + tag
                 pre.append(ast.Assign(targets=[ast.Name(id=tmp, ctx=ast.Store())], value=copy.deepcopy(v), lineno=st.lineno))
                 rename[p] = tmp
+        # 'x = h(...)' where h returns one of its own locals: that local *is* x (no alias 'x = r__h1' is left behind)
+        if isinstance(ret, ast.Name) and ret.id in rename and isinstance(st, ast.Assign) and len(st.targets) == 1 and isinstance(st.targets[0], ast.Name) \
+                and not any(isinstance(x, ast.Name) and x.id == st.targets[0].id for s_ in body for x in ast.walk(s_)):
+            rename[ret.id] = st.targets[0].id
+            ret = None
+            st = ast.Expr(value=ast.Constant(value=None))
         sub = _Subst(mapping, rename)
         new_body = [sub.visit(copy.deepcopy(s)) for s in body]
         out = pre + new_body
@@ -438,10 +481,20 @@ class Inliner:
                     blk = getattr(node, fld, None)
                     if isinstance(blk, list) and blk and isinstance(blk[0], ast.stmt):
                         new = []
-                        for s in blk:
-                            rep = inl.stmt_inline(fi, s) if not isinstance(s, (ast.FunctionDef, ast.ClassDef)) else None
-                            if rep is not None:
+                        work = list(blk)
+                        while work:
+                            s = work.pop(0)
+                            if isinstance(s, (ast.FunctionDef, ast.ClassDef)):
+                                new.append(s)
+                                continue
+                            hz = inl.hoist(fi, s)
+                            if hz is not None:
                                 nonlocal changed
+                                changed = True
+                                work = hz + work
+                                continue
+                            rep = inl.stmt_inline(fi, s)
+                            if rep is not None:
                                 changed = True
                                 new.extend(rep)
                             else:
